@@ -1,15 +1,18 @@
 #!/bin/sh
 # tools/seeded_par.sh [seed] [jobs]: like seeded_all.sh, several mutants at a time, with VERIF_SEED=<seed>.
 # Prints one line per stored seeded change / own mutant; every claimed one must say CAUGHT.
+# FILTER=<egrep pattern on the directory name> restricts the run (e.g. FILTER='-1[1-4]$' for rounds 11-14).
 cd /verif
 seed=${1:-0}; jobs=${2:-4}
 list=$(mktemp)
 for d in seeded/C*; do
   id=$(basename $d); chk=$(echo $id | cut -d- -f1)
+  if [ -n "${FILTER:-}" ] && ! echo "$id" | grep -Eq "$FILTER"; then continue; fi
   if grep -q judged_outside_the_statement $d/meta.json 2>/dev/null; then echo "seeded $id: not claimed (outside the statement, see meta.json)"; continue; fi
   echo "$d/patch.diff $chk $id" >> $list
 done
 for m in mutants/*.diff; do
+  [ -n "${FILTER:-}" ] && continue
   echo "$m $(basename $m | cut -d_ -f1 | tr a-z A-Z) $(basename $m .diff)" >> $list
 done
 cat $list | xargs -P $jobs -L 1 sh -c 'cp $0 /tmp/sp-$2.diff; VERIF_SEED='$seed' tools/mutant.sh /tmp/sp-$2.diff $1 | grep "check" | sed "s/^mutant sp-/mutant /"; rm -f /tmp/sp-$2.diff'
